@@ -3,4 +3,4 @@ From SF Require Import Base.GeomAST Model.Empty Model.EmptyObs.
 Extraction Language OCaml.
 Extraction "model.ml" insert_empties strip_empties no_empty_members emp_geom is_empty Empty.dimension
   Empty.dimension_ie num_members neutral force_geom geom_type geom_ct relate_empty_codes
-  relate_empty_codes_unfixed env_z area2_q payload N.of_nat N.to_nat.
+  relate_empty_codes_unfixed env_z area2_q twkb_bbox_z twkb_refuses payload N.of_nat N.to_nat.
